@@ -19,7 +19,7 @@ pub static RESULT_FD: std::sync::atomic::AtomicI32 = std::sync::atomic::AtomicI3
 
 pub fn step_bound(sc: &Scenario) -> usize {
     match sc.engine {
-        Engine::Pool => 60_000,
+        Engine::Pool => 60_000 + 4_000 * sc.pool.as_ref().map(|p| p.size).unwrap_or(0),
         _ => 600_000 + 4_000 * sc.conns.len(),
     }
 }
